@@ -169,15 +169,24 @@ class Memtable(Entity):
         """Check if a key is in the memtable (no I/O cost)."""
         return key in self._data
 
-    def flush(self) -> SSTable:
-        """Freeze contents into an SSTable and clear the memtable.
+    def freeze(self) -> SSTable:
+        """Build an SSTable from the current contents without clearing them.
 
-        Returns the new SSTable containing all current entries.
+        The LSM tree uses this so that the frozen (immutable) memtable keeps
+        serving reads until the SSTable has actually been installed.
         """
         data = [(k, v) for k, v in self._data.items()]
         sstable = SSTable(data, level=0, sequence=self._sequence)
         self._sequence += 1
         self._total_flushes += 1
+        return sstable
+
+    def flush(self) -> SSTable:
+        """Freeze contents into an SSTable and clear the memtable.
+
+        Returns the new SSTable containing all current entries.
+        """
+        sstable = self.freeze()
         self._data.clear()
         logger.debug(
             "[%s] Flushed %d entries to SSTable(seq=%d)",
